@@ -571,6 +571,12 @@ func (db *MultiBucketBackend) deleteObjectLocked(bucketName, objectName string) 
 
 	fullPath := path.Join(bucketName, objectName)
 
+	// A directory is not an object: it only exists because keys live below
+	// it, so there is no key of that name to delete.
+	if stat, err := db.bucketFs.Stat(filepath.FromSlash(fullPath)); err == nil && stat.IsDir() {
+		return nil
+	}
+
 	// S3 does not report an error when attemping to delete a key that does not exist, so
 	// we need to skip IsNotExist errors.
 	if err := db.bucketFs.Remove(filepath.FromSlash(fullPath)); err != nil && !os.IsNotExist(err) {
